@@ -394,6 +394,30 @@ def step (s : State) (toks : List String) : State × String :=
           else (s, "stuck")
         | none => (s, "stuck")
     | _, _, _, _, _, _ => (s, "bad-op")
+  | ["proxied", gname, hosts, bf, parts] =>
+    -- clients that report through the proxy (tcpproxy.go `serve`: a relay, both directions copied until one side
+    -- ends): one idle connection straight to the monitor keeps `Listen` alive; every client, whether it ends in an
+    -- orderly way (`o`) or is reset (`x`) after its bytes are through, is one more connection of the monitor
+    let clients : Option (List (List M)) := (parts.splitOn ";").mapM fun p =>
+      match p.toList with
+      | m :: ':' :: r => if m = 'o' || m = 'x' then parseRecs (String.ofList r) else none
+      | _ => none
+    match posNat hosts, posNat bf, clients, s.mon with
+    | some _, some _, some cls, none =>
+      if known s gname then (s, "bad-op") else
+      let st : St := { static := [("hosts", hosts), ("bf", bf)], vals := [] }
+      let futures : List (List M) := [] :: cls
+      let k := futures.length
+      let acts := [Act.accept 0] ++
+        (List.range k).tail.flatMap (fun i =>
+          [Act.accept i] ++ (futures[i]?.getD []).map (fun _ => Act.write i) ++
+          (futures[i]?.getD []).flatMap (fun r => if isEnd r.name then [Act.decode i] else [.decode i, .deliver i]) ++
+          [.hangup i, .eof i]) ++
+        [.hangup 0, .eof 0]
+      match runNet (Net.start { global := st } futures) acts with
+      | some n' => if n'.finished then ({ s with free := s.free ++ [(gname, n'.mon.global)] }, "ok") else (s, "stuck")
+      | none => (s, "stuck")
+    | _, _, _, _ => (s, "bad-op")
   | ["mupd", name, bits, host] =>
     match parseF bits, parseInt host, s.mon with
     | some x, some h, some mn => ({ s with mon := some { mn with m := mn.m.update (measure name x h) } }, "ok")
